@@ -880,7 +880,7 @@ PROPS["C19"] = {
             "all emitted logs; non-trivial = some operation emitted at least two logs",
     "assumptions": ["messages run on a branched context that is dropped on error (as baseapp does)",
                     "the model takes the updateBlockBloom argument of each call site from the regenerated facts (fact_C19_all_sites_pass_log_index)",
-                    "ERC20-born conversions (convertCoinToEvmBornERC20) are covered by the facts and the theorem, not yet by the generator"],
+                    "ERC20-born conversions (convertCoinToEvmBornERC20) and Ethereum txs straight to the FunToken precompile are generated too (the number of logs they emit is read off the implementation)"],
 }
 
 
